@@ -124,6 +124,12 @@ CHUNK = 2
 
 TOL_TAIL = 1e-9     # on tail(b)/I - (1-p); the constructor's brentq has xtol 2e-12
 SLACK_STEP = 1e-6   # on the per-step share (DESIGN): the constructor's brentq has xtol 1e-10
+FAR = 100.0         # input class "root of the tail-mass equation beyond +-100" (decided on the density): refusal accepted
+# equal-probability point of a gap of the probability-step grid: allowed distance = SPLIT_REL * gap + SPLIT_ABS (the
+# library's root search has xtol 1e-10; measured on the pinned tree: <= 2.5e-11 for every family, h from 0.1 to 1e-5)
+SPLIT_REL = 1e-6
+SPLIT_ABS = 1e-9
+SPLIT_NOISE = 1e-13  # of the total jump mass: imbalances below it are rounding of the library's mass function (far tails)
 
 
 # ----------------------------------------------------------------------------------------------------------------------
@@ -162,6 +168,66 @@ def _extra_model_grids(tier, dimension):
     return out
 
 
+# heavy-tailed models: so much of the one-sided jump mass lies beyond +-100 that the tail-mass equation at 0.99999 has no
+# root inside +-100 on one side (HEM eta2 = 0.1: 4.7e-5 of the left jumps beyond -100; CGMY m = 0.05, y = 0.5: 3.3e-5 of the
+# right jumps; Merton sigma_j = 40: 1.2e-2 on both sides). At probability 0.9 the roots are ordinary (-23.3 / 4.9 / +-65.9).
+HEAVY_HEM = {"sigma": 0.05, "p": 0.6, "eta1": 20.0, "eta2": 0.1, "intensity": 3.0}
+HEAVY_MODELS = [
+    {"family": "hem", "exp": False, "params": HEAVY_HEM},
+    {"family": "cgmy", "exp": False, "params": {"c": 1.0, "g": 15.0, "m": 0.05, "y": 0.5}},
+    {"family": "hem", "exp": True, "params": HEAVY_HEM, "r": 0.02, "d": 0.0, "spot": 100.0},
+    {"family": "merton", "exp": False, "params": {"sigma": 0.0, "sigma_j": 40.0, "mu_j": 0.0, "intensity": 3.0}},
+    {"family": "hem", "exp": False, "params": {"sigma": 0.05, "p": 0.6, "eta1": 0.03, "eta2": 25.0, "intensity": 3.0}},
+    {"family": "cgmy", "exp": False, "params": {"c": 1.0, "g": 0.05, "m": 20.0, "y": 0.5}},
+]
+MARGINS = dict(A.MARGINS)
+MARGINS["hemheavy"] = HEAVY_MODELS[0]
+MARGINS["cgmyheavy"] = HEAVY_MODELS[1]
+HEAVY_CMODELS = [
+    {"margins": ["hem", "hemheavy"], "copula": {"kind": "clayton", "theta": 0.7, "eta": 0.3}},
+    {"margins": ["cgmyheavy", "vg"], "copula": {"kind": "independent"}},
+    {"margins": ["hem", "vg", "hemheavy"], "copula": {"kind": "dependent"}},
+]
+HEAVY_WRAPPED = [
+    {"wrap": "sde", "model": HEAVY_MODELS[0]},
+    {"wrap": "forward", "cmodel": HEAVY_CMODELS[0]},
+    {"wrap": "forward", "model": HEAVY_MODELS[1]},
+]
+
+_HEM0 = {"family": "hem", "exp": False, "params": {}}
+_VG0 = {"family": "vg", "exp": False, "params": {}}
+_MERTON0 = {"family": "merton", "exp": False, "params": {}}
+
+
+def _cgmy(y):
+    return {"family": "cgmy", "exp": False, "params": {"c": 1.0, "g": 15.0, "m": 20.0, "y": y}}
+
+
+def _prob_deep(tier):
+    """Probability-step grids refined deeply and / or built with a small h: (model, grid spec with its own depth). The gaps
+    next to the origin halve at every refinement while the root searches of the grid's middle() have absolute tolerances:
+    smallest gap of the alphabet 3e-7 (h = 1e-5, 5 refinements), far above the 1e-10 of the library's root search."""
+    def g(h, pmin, depth, dim=1):
+        d = {"kind": "probability", "h": h, "pmin": pmin, "depth": depth}
+        if dim != 1:
+            d["dim"] = dim
+        return d
+
+    exp_reinit = dict(_HEM0, exp=True, r=0.02, d=0.0, spot=100.0, via="reinit")
+    families = (_HEM0, _MERTON0, _VG0, _cgmy(-0.5), _cgmy(0.0), _cgmy(0.5), _cgmy(1.0), _cgmy(1.2), _cgmy(1.5), exp_reinit)
+    if tier != "thorough":
+        out = [(_HEM0, g(0.05, 0.05, 8)), (_HEM0, g(2e-6, 0.05, 2, dim=2)), (exp_reinit, g(2e-6, 0.2, 3)),
+               (_cgmy(0.5), g(0.05, 0.1, 6)), (_VG0, g(0.1, 0.2, 6, dim=2))]
+        for m in families:
+            out += [(m, g(1e-3, 0.2, 4)), (m, g(1e-5, 0.2, 5))]
+        return out
+    out = [(_HEM0, g(0.05, 0.05, 10)), (_HEM0, g(0.05, 0.2, 8, dim=2)), (_VG0, g(0.1, 0.2, 8)), (_cgmy(0.5), g(0.05, 0.1, 8)),
+           (_MERTON0, g(0.05, 0.1, 8)), (_cgmy(1.2), g(0.1, 0.2, 8))]
+    for m in families:
+        out += [(m, g(1e-3, 0.2, 6)), (m, g(1e-5, 0.05, 6)), (m, g(2e-6, 0.2, 3, dim=3)), (m, g(1e-4, 0.5, 5, dim=2))]
+    return out
+
+
 HIST_MODELS = [
     {"family": "hem", "exp": False, "params": {}},
     {"family": "merton", "exp": False, "params": {}},
@@ -171,6 +237,9 @@ HIST_MODELS = [
     {"family": "cgmy", "exp": False, "params": {"c": 1.0, "g": 15.0, "m": 20.0, "y": 1.2}},
     {"family": "hem", "exp": True, "params": {}, "r": 0.02, "d": 0.0, "spot": 100.0},
     {"family": "cgmy", "exp": True, "params": {"c": 1.0, "g": 15.0, "m": 20.0, "y": 0.5}, "r": 0.02, "d": 0.0, "spot": 100.0},
+    # error / fall-back paths reached through a history: a heavy-tailed model made ordinary by set-params, and the reverse
+    {"family": "hem", "exp": False, "params": HEAVY_HEM},
+    {"family": "hem", "exp": False, "params": {}, "alt_params": HEAVY_HEM},
 ]
 HIST_CMODELS = [
     {"margins": ["hem", "vg"], "copula": {"kind": "clayton", "theta": 0.7, "eta": 0.3}},
@@ -223,6 +292,9 @@ def cases(tier):
         d = depth
         if gspec["kind"] == "probability":
             d = min(depth, 4)
+        if "depth" in gspec:
+            d = gspec["depth"]
+            gspec = {k: v for k, v in gspec.items() if k != "depth"}
         c = {"sub": "grid", "dim": dim, "grid": gspec, "model": model, "cmodel": cmodel, "depth": d}
         if wrap:
             c["wrap"] = wrap
@@ -246,6 +318,18 @@ def cases(tier):
             add({"kind": "fixed", "h": 0.25, "n": 2}, dim)
             add({"kind": "fixed", "h": 0.05, "n": 21}, dim)
             add({"kind": "geometric-bounds", "h": 0.05, "bounds": [-1.0, 2.0], "n_side": 2}, dim)
+    # sizes: the smallest (n = 2: one state per side), an even n, and axes beyond 256 / 2048 (thorough: 32768) states
+    for n, d in ([(2, 3), (4, 3), (601, 2)] + ([(8193, 2)] if thorough else [])):
+        add({"kind": "fixed", "h": 0.25 if n < 10 else 0.01, "n": n, "depth": d}, 1)
+    add({"kind": "fixed", "h": 0.25, "n": 4}, 3)
+    # integral h and bounds (also handed over as Python ints, form "integral-floats-as-ints")
+    add({"kind": "fixed", "h": 1.0, "n": 5}, 2)
+    add({"kind": "geometric-bounds", "h": 1.0, "bounds": [-4.0, 3.0], "n_side": 3}, 2)
+    # many refinements of small grids with the arithmetic middle (accumulation: h, origin index, states at twice their index)
+    deep = 12 if thorough else 10
+    add({"kind": "fixed", "h": 0.1, "n": 3, "depth": deep}, 1)
+    add({"kind": "geometric-bounds", "h": 0.1, "bounds": [-0.7, 0.4], "n_side": 2, "depth": deep}, 2)
+    add({"kind": "raw", "h": 0.1, "name": "raw2", "depth": deep - 2}, 2)
     for name in sorted(RAW_AXES):
         add({"kind": "raw", "h": 0.1, "name": name}, len(RAW_AXES[name]))
 
@@ -268,8 +352,30 @@ def cases(tier):
         for g in g1:
             add(g, g.get("dim", 1), model=m)
 
+    # degenerate options: truncation probability 0 (root at h/2: the bound is forced out to h) and 1 (no root: refusal), a
+    # minimum probability step of 1 (no step found: each half-axis is h and one closing state)
+    for m in ([_HEM0, _VG0, _cgmy(1.2)] if thorough else [_HEM0, _cgmy(1.2)]):
+        for g in ({"kind": "uniform", "h": 0.1, "p": 0.0}, {"kind": "uniform", "h": 0.1, "p": 1.0},
+                  {"kind": "geometric", "h": 0.1, "n_side": 2, "p": 1.0}, {"kind": "probability", "h": 0.1, "pmin": 1.0},
+                  {"kind": "probability", "h": 0.1, "pmin": 1.0, "dim": 3}):
+            add(g, g.get("dim", 1), model=m)
+
+    # probability-step grids refined deeply / with a small h
+    for m, g in _prob_deep(tier):
+        add(g, g.get("dim", 1), model=m)
+
+    # heavy-tailed models (the truncation root lies beyond the library's search interval on one side)
+    for m in (HEAVY_MODELS if thorough else HEAVY_MODELS[:5]):
+        for g in g1:
+            add(g, g.get("dim", 1), model=m)
+    add({"kind": "credit", "h": 0.1, "a_frac": 0.5, "symmetric": True, "depth": deep}, 1, model=_HEM0)
+    for cm in (HEAVY_CMODELS if thorough else HEAVY_CMODELS[:1]):
+        dim = len(cm["margins"])
+        for g in [g for g in A.grid_specs(tier, dim) if g["kind"] not in indep] + _extra_model_grids(tier, dim):
+            add(g, dim, cmodel=cm)
+
     # SDE models driven by a Levy (copula) model: the constructors read the measure of the driver
-    for w in HIST_WRAPPED:
+    for w in HIST_WRAPPED + (HEAVY_WRAPPED if thorough else HEAVY_WRAPPED[:1]):
         dim = len(w["cmodel"]["margins"]) if w.get("cmodel") else 1
         gs = [g for g in A.grid_specs(tier, dim) if g["kind"] in ("uniform", "geometric")] \
             + [g for g in _extra_model_grids(tier, dim) if g["kind"] == "geometric"]
@@ -306,13 +412,11 @@ def _base_model(case, alt=None):
         return A.make_model(spec)
     if case.get("cmodel") is not None:
         cm = case["cmodel"]
-        if not alt or not any(alt):
-            return A.make_copula_model(cm)
         from rpylib.model.utils import create_levy_copula_model
 
         models = []
-        for name, flag in zip(cm["margins"], alt):
-            ms = dict(A.MARGINS[name])
+        for name, flag in zip(cm["margins"], alt or [None] * len(cm["margins"])):
+            ms = dict(MARGINS[name])
             if cm.get("exp"):
                 ms = dict(ms, exp=True, r=0.02, d=0.0, spot=100.0)
             if flag:
@@ -500,6 +604,9 @@ def _bound_class(tails, h, p, side):
         return "bound-within-h"
     if within[2.0]:
         return "bound-within-2h"
+    # a root beyond +-100 (heavy tail): more than 1-p of the one-sided jump mass of some margin lies beyond +-100
+    if any(f > (1 - p) + TOL_TAIL and e <= TOL_TAIL / 10 for f, e in tails.all(s * FAR, side)):
+        return "bound-beyond-100"
     return "bound-beyond-2h"
 
 
@@ -712,12 +819,14 @@ def _probability_promise(sh, ctx, snap, case, grid):
             continue
         s = v / total
         shares.append(s)
-        if s > pmin + SLACK_STEP:
+        # both end points come from root searches with xtol 1e-10: the share moves by density * 1e-10 / total per end point
+        slack = SLACK_STEP + 4e-10 * max(float(nu(float(x))), float(nu(float(y)))) / total
+        if s > pmin + slack:
             side = "left" if y <= 0 else "right"
             out.append((f"C13:promise:probability:step-carries-more-than-the-requested-share:{side}:{ctx.dcls}{ctx.model_cls}",
                         f"gap [{x!r}, {y!r}] carries {s:.8g} of the jump mass, requested at most {pmin}",
                         {"axis": ax.tolist(), "shares": shares}))
-        elif abs(s - pmin) <= SLACK_STEP:
+        elif abs(s - pmin) <= slack:
             sh.count("probability_steps_with_exactly_the_requested_share")
         else:
             sh.count("probability_steps_below_the_requested_share")
@@ -861,6 +970,10 @@ def _prepare(sh, case, model, splits=None, keys=None, memo=None, l_ref=None):
             try:
                 l, _ = compute_truncation(model=model, h=g["h"])
             except Exception as e:
+                if isinstance(e, ValueError) and _refusable(ctx):
+                    sh.count("constructor_refuses_arguments_without_well_formed_grid")
+                    sh.nontriv()
+                    return None, "refused-" + "".join(sorted(ctx.side_cls.values()))
                 sh.violation(f"C13:state:{ctx.component}:compute-truncation-raises:{type(e).__name__}:{ctx.dcls}",
                              f"compute_truncation(model, h={g['h']}): {type(e).__name__}: {e}", None)
                 return None, ("raises", type(e).__name__)
@@ -884,7 +997,7 @@ def _prepare(sh, case, model, splits=None, keys=None, memo=None, l_ref=None):
 
 
 def _refusable(ctx):
-    return any(c.endswith("bound-within-h") for c in ctx.side_cls.values()) \
+    return any(c.endswith("bound-within-h") or c.endswith("bound-beyond-100") for c in ctx.side_cls.values()) \
         or ctx.credit_cls == ":mirror-point-beyond-right-root"
 
 
@@ -937,8 +1050,8 @@ def _sub_grid(sh, case):
             found += _edge_invariants(sh, ctx, trace[-2], snap, snap["expected_mid"], len(hist))
             if snap.get("aliased"):
                 sh.count("observation_origin_coordinate_object_mutated_in_place")
-            if g["kind"] == "probability" and len(hist) == 1:
-                _observe_equal_mass_split(sh, ctx, trace[-2], snap)
+            if g["kind"] == "probability":
+                found += _split_invariants(sh, ctx, trace[-2], snap, len(hist))
         for key, what, detail in found[1:]:
             sh.violation(key, what, {"history": hist, "detail": detail})
         return found[0] if found else None
@@ -1059,6 +1172,229 @@ def _twin_invariants(sh, ctx, case):
                 out.append((f"C13:twin:{comp}:refining-one-grid-changes-another-grid:{dcls}",
                             f"refine() of {names[i]} (call {step + 1}) changed {names[j]}: {d}", None))
     sh.count("twin_grids_compared")
+    out += _copies_invariants(sh, ctx, case, model, s1, ref)
+    out += _forms_invariants(sh, ctx, case, model, s1, ref)
+    return out
+
+
+def _copies_invariants(sh, ctx, case, model, s1, ref):
+    """Serialised copies (pickle and dill round trips, what a process pool does to a grid): equal to the grid at construction,
+    refine() acts on them as on the original and on nothing else. (copy.copy is outside: a shallow copy shares the list of
+    axes with its original by definition.)"""
+    import pickle
+
+    out = []
+    comp, dcls = ctx.component, ctx.dcls
+    routes = [("pickle", lambda g: pickle.loads(pickle.dumps(g)))]
+    try:
+        import dill
+
+        routes.append(("dill", lambda g: dill.loads(dill.dumps(g))))
+    except ImportError:
+        sh.count("dill_not_installed")
+    g0 = _construct(case, model)
+    copies = []
+    for name, f in routes:
+        try:
+            c = f(g0)
+        except Exception as e:
+            out.append((f"C13:twin:{comp}:{name}-round-trip-raises:{type(e).__name__}:{dcls}", f"{type(e).__name__}: {e}", None))
+            continue
+        sh.count("evaluations")
+        d = _same_snap(s1, _snapshot(c))
+        if d:
+            out.append((f"C13:twin:{comp}:{name}-round-trip-differs-from-the-grid:{dcls}", d, None))
+        copies.append((name, c))
+    for name, c in copies:
+        c.refine()
+        sh.count("evaluations", 2)
+        d = _same_snap(ref, _snapshot(c))
+        if d:
+            out.append((f"C13:twin:{comp}:refinement-of-a-{name}-round-trip-differs:{dcls}",
+                        f"refine() of the {name} copy vs refine() of the grid: {d}", None))
+        d = _same_snap(s1, _snapshot(g0))
+        if d:
+            out.append((f"C13:twin:{comp}:refining-one-grid-changes-another-grid:{dcls}",
+                        f"refine() of the {name} copy changed the original: {d}", None))
+    g0.refine()
+    sh.count("evaluations")
+    d = _same_snap(ref, _snapshot(g0))
+    if d:
+        out.append((f"C13:twin:{comp}:refinement-depends-on-other-grids-refined-before:{dcls}",
+                    f"refine() of a grid after its serialised copies were refined: {d}", None))
+    sh.count("serialised_copies_compared", len(copies))
+    return out
+
+
+# ----------------------------------------------------------------------------------------------------------------------
+# argument forms: the same arguments handed over as numpy scalars / positionally / as other sequence types
+# ----------------------------------------------------------------------------------------------------------------------
+
+def _usual_args(ctx, case, model):
+    """(callable, keyword arguments in signature order) of the constructor call of the case, in the usual form (Python
+    floats / ints, keywords, tuples for bounds, lists for thresholds)."""
+    from rpylib.grid import spatial as S
+
+    g, dim, kind = case["grid"], case["dim"], case["grid"]["kind"]
+    if kind == "raw":
+        axes = [np.array(a, dtype=float) for a in RAW_AXES[g["name"]]]
+        return S.CTMCGrid, {"h": g["h"], "origin_coordinate": axes[0].tolist().index(0.0), "axes": axes}
+    if kind == "uniform":
+        return S.CTMCUniformGrid, {"h": g["h"], "model": model, "truncation_probability": g["p"]}
+    if kind == "fixed":
+        return S.CTMCUniformGrid.create_from_fixed_nb_of_points, {"h": g["h"], "nb_of_points": g["n"], "dimension": dim}
+    if kind == "geometric":
+        return S.CTMCGridGeometric, {"h": g["h"], "model": model, "nb_of_points_on_each_side": g["n_side"],
+                                     "truncation_probability": g["p"]}
+    if kind == "geometric-bounds":
+        return S.CTMCGridGeometric.create_with_bounds, {"h": g["h"], "truncations": tuple(float(x) for x in g["bounds"]),
+                                                        "dimension": dim, "nb_of_points_on_each_side": g["n_side"]}
+    if kind == "probability":
+        return S.CTMCGridProbabilityStep, {"h": g["h"], "model": model, "minimum_probability_step": g["pmin"], "dimension": dim}
+    if kind == "credit":
+        lv = [float(a) for a in ctx.credit_levels]
+        return S.CTMCCredit, {"h": g["h"], "level_a": lv[0] if dim == 1 else lv, "model": model,
+                              "symmetric_grid": bool(g.get("symmetric", True))}
+    raise ValueError(kind)
+
+
+def _is_number(v):
+    return isinstance(v, (bool, int, float)) and not isinstance(v, np.generic)
+
+
+def _to_numpy_scalar(v):
+    if isinstance(v, bool):
+        return np.bool_(v)
+    if isinstance(v, int):
+        return np.int64(v)
+    if isinstance(v, float):
+        return np.float64(v)
+    if isinstance(v, (list, tuple)) and v and all(_is_number(x) for x in v):
+        return type(v)(_to_numpy_scalar(x) for x in v)
+    return v
+
+
+def _to_array(v):
+    if isinstance(v, (list, tuple)) and v and all(_is_number(x) for x in v):
+        return np.array(v, dtype=float)
+    return v
+
+
+def _swap_sequence(v):
+    if isinstance(v, (list, tuple)) and v and all(_is_number(x) for x in v):
+        return tuple(v) if isinstance(v, list) else list(v)
+    return v
+
+
+def _int_bool(v):
+    return int(v) if isinstance(v, bool) else v
+
+
+def _integral_as_int(v):
+    if isinstance(v, float) and v.is_integer():
+        return int(v)
+    if isinstance(v, (list, tuple)) and v and all(isinstance(x, float) and x.is_integer() for x in v):
+        return type(v)(int(x) for x in v)
+    return v
+
+
+FORMS = [
+    # (name, transformation of every argument value, constructors of the form's alphabet: None = all)
+    ("positional", None, None),                 # the same values, positionally in signature order
+    ("numpy-scalars", _to_numpy_scalar, None),  # np.float64 / np.int64 / np.bool_ (also inside the sequences)
+    ("sequences-as-arrays", _to_array, None),   # bounds / thresholds as a float ndarray
+    ("sequences-swapped", _swap_sequence, None),  # list <-> tuple
+    ("flags-as-int", _int_bool, None),          # symmetric_grid = 1 / 0
+    # integral h / bounds as Python ints: the model-free constructors accept them (the model-based ones and CTMCGrid raise
+    # TypeError on an integer h on the pinned tree: outside)
+    ("integral-floats-as-ints", _integral_as_int, ("fixed", "geometric-bounds")),
+]
+
+
+def _forms_invariants(sh, ctx, case, model, s1, ref):
+    """The constructor called with each legal FORM of the same arguments (forms the pinned tree accepts: listed in FORMS;
+    integer h, integer-dtype or float32 axes, tuples of axes, a scalar threshold for a copula model are rejected by it with
+    TypeError / ValueError and are outside the alphabet) returns the same grid, exactly, and refines to the same grid;
+    array / list arguments are not modified by the constructor or by refine(), and (bounds, thresholds: the constructor
+    promises grids built from their VALUES) modifying them afterwards does not change the grid."""
+    out = []
+    comp, dcls = ctx.component, ctx.dcls
+    fn, usual0 = _usual_args(ctx, case, model)
+
+    def sig(v):
+        if isinstance(v, (list, tuple)):
+            return (type(v).__name__, tuple(type(x).__name__ for x in v))
+        return type(v).__name__
+
+    def own(v, k):
+        if k == "axes":
+            return [np.array(a, copy=True) for a in v]   # a grid keeps the arrays it is given: every call gets its own
+        return list(v) if isinstance(v, list) else v
+
+    for form, tr, kinds in FORMS:
+        if kinds is not None and case["grid"]["kind"] not in kinds:
+            continue
+        usual = {k: own(v, k) for k, v in usual0.items()}
+        given = {k: (v if (tr is None or k in ("model", "axes")) else tr(v)) for k, v in usual.items()}
+        if tr is not None and all(sig(given[k]) == sig(usual[k]) for k in usual):
+            continue   # the form does not differ from the usual one for this constructor
+        args, kwargs = (list(given.values()), {}) if tr is None else ([], given)
+        seqs = {k: v for k, v in given.items() if isinstance(v, (list, np.ndarray))}
+        before = {k: ([np.array(a, copy=True) for a in v] if k == "axes" else np.array(v, dtype=float, copy=True))
+                  for k, v in seqs.items()}
+        arrays = list(given["axes"]) if "axes" in given else []   # the array objects (refine() re-binds the list's entries)
+        sh.cls(f"argument-form:{form}")
+        sh.count("evaluations")
+        try:
+            grid = fn(*args, **kwargs)
+            d = _same_snap(s1, _snapshot(grid))
+            if d:
+                out.append((f"C13:forms:{comp}:grid-differs-from-that-of-the-usual-argument-form:{form}:{dcls}",
+                            f"arguments as {form}: {d}", {"arguments": {k: repr(v) for k, v in given.items() if k != "model"}}))
+                continue
+            grid.refine()
+            sh.count("evaluations")
+            d = _same_snap(ref, _snapshot(grid))
+            if d:
+                out.append((f"C13:forms:{comp}:refinement-differs-from-that-of-the-usual-argument-form:{form}:{dcls}",
+                            f"arguments as {form}, after refine(): {d}", None))
+                continue
+            # the caller's sequences are left as they were
+            for k, v in seqs.items():
+                sh.count("evaluations")
+                if k == "axes":
+                    changed = any(not np.array_equal(x, y) for x, y in zip(arrays, before[k]))
+                else:
+                    changed = not np.array_equal(np.array(v, dtype=float), before[k])
+                if changed:
+                    out.append((f"C13:forms:{comp}:callers-argument-modified:{k}:{form}:{dcls}",
+                                f"argument {k} passed as {type(v).__name__} was modified by the constructor or refine()", None))
+            # values, not references: bounds / thresholds overwritten afterwards do not move the grid
+            touched = False
+            for k, v in seqs.items():
+                if k == "axes":
+                    continue
+                for i in range(len(v)):
+                    v[i] = -7.0
+                touched = True
+            if touched:
+                sh.count("evaluations")
+                d = _same_snap(ref, _snapshot(grid))
+                if not d:
+                    grid.refine()
+                    g2 = fn(**{k: own(v, k) for k, v in usual0.items()})
+                    g2.refine()
+                    g2.refine()
+                    d = _same_snap(_snapshot(g2), _snapshot(grid))
+                if d:
+                    out.append((f"C13:forms:{comp}:grid-follows-the-callers-argument-overwritten-afterwards:{form}:{dcls}",
+                                f"arguments as {form}; after overwriting the caller's sequence: {d}", None))
+        except Exception as e:
+            import traceback
+
+            out.append((f"C13:forms:{comp}:constructor-or-refine-raises-for-argument-form:{form}:{type(e).__name__}:{dcls}",
+                        f"arguments as {form}: {type(e).__name__}: {e}", {"traceback": traceback.format_exc(limit=5)}))
+        sh.count("argument_forms_compared")
     return out
 
 
@@ -1084,6 +1420,8 @@ def _alt_params(spec, version="alt"):
     fam = spec["family"]
     if version == "donor":
         return dict(A.DONOR_PARAMS[fam])
+    if spec.get("alt_params"):
+        return dict(spec["alt_params"])
     if fam == "cgmy":
         alt = {"c": 0.5, "g": 6.0, "m": 6.0, "y": spec["params"].get("y", 0.5)}
     else:
@@ -1115,7 +1453,7 @@ def _hist_gspec(kind, h, p, dim):
 def _margin_spec(case, k):
     if case.get("model") is not None:
         return case["model"]
-    ms = dict(A.MARGINS[case["cmodel"]["margins"][k]])
+    ms = dict(MARGINS[case["cmodel"]["margins"][k]])
     if case["cmodel"].get("exp"):
         ms = dict(ms, exp=True, r=0.02, d=0.0, spot=100.0)
     return ms
@@ -1299,6 +1637,78 @@ def _safe_indices(coord):
         return [int(getattr(coord, "value", coord))]
 
 
+def _total_mass(ctx):
+    """nu(|x| > h/2) at the construction step h by quadrature of the density (value, error), memoised on the context."""
+    if getattr(ctx, "total_mass", None) is None:
+        nu, h = ctx.nus[0], ctx.tails.h
+        sp = tuple(ctx.tails.splits[0])
+        il, el = O.integrate_density(nu, -math.inf, -h / 2, extra_splits=sp)
+        ir, er = O.integrate_density(nu, h / 2, math.inf, extra_splits=sp)
+        ctx.total_mass = (il + ir, el + er)
+    return ctx.total_mass
+
+
+def _split_invariants(sh, ctx, old, new, nrefine):
+    """Probability-step grid: the state inserted into a gap [a, b] away from the origin is the grid's cell boundary, which
+    CTMCGridProbabilityStep.middle documents as the point with equal probability to its left and right inside the gap.
+    Oracle on the model's own density, no root search of the library involved: with G(x) = nu((a, x)) - nu((x, b))
+    (increasing in x) the equal-probability point lies within tol of the inserted state iff G(ins - tol) <= 0 <= G(ins + tol);
+    tol = SPLIT_REL * (b - a) + SPLIT_ABS, i.e. RELATIVE TO THE GAP for ordinary gaps. A violation is reported only when the
+    sign is decided beyond the quadrature error estimate and beyond SPLIT_NOISE of the total jump mass."""
+    out = []
+    nu = ctx.nus[0]
+    sp = tuple(ctx.tails.splits[0])
+    total, etotal = _total_mass(ctx)
+    if not (total > 0) or not math.isfinite(total) or etotal > 1e-9 * total:
+        sh.count("oracle_inconclusive")
+        return out
+    a_ = old["axes"][0]
+    b_ = new["axes"][0]
+    if b_.size != 2 * a_.size - 1:
+        return out
+    for j in range(a_.size - 1):
+        a, b, ins = float(a_[j]), float(a_[j + 1]), float(b_[2 * j + 1])
+        if a == 0.0 or b == 0.0 or not (a < b):
+            continue
+        sh.count("evaluations")
+        tol = SPLIT_REL * (b - a) + SPLIT_ABS
+        lo_x, hi_x = max(a, ins - tol), min(b, ins + tol)
+        if not (a <= ins <= b):
+            continue   # reported by the strictly-inside invariant
+        whole, ew = O.integrate_density(nu, a, b, extra_splits=sp)
+        left_lo, e1 = O.integrate_density(nu, a, lo_x, extra_splits=sp)
+        left_hi, e2 = O.integrate_density(nu, a, hi_x, extra_splits=sp)
+        g_lo = 2 * left_lo - whole     # G(ins - tol): must be <= 0
+        g_hi = 2 * left_hi - whole     # G(ins + tol): must be >= 0
+        thr = (ew + 2 * max(e1, e2)) + SPLIT_NOISE * total
+        if not math.isfinite(whole) or (ew + e1 + e2) > 1e-7 * abs(whole) + SPLIT_NOISE * total:
+            sh.count("oracle_inconclusive")
+            continue
+        if g_lo > thr or g_hi < -thr:
+            # locate the equal-probability point by bisection on the density (for the report only)
+            lo, hi = a, b
+            for _ in range(60):
+                mid = 0.5 * (lo + hi)
+                v, _e = O.integrate_density(nu, a, mid, extra_splits=sp)
+                if 2 * v - whole > 0:
+                    hi = mid
+                else:
+                    lo = mid
+            ref = 0.5 * (lo + hi)
+            at = "gap-narrower-than-1e-4" if (b - a) < 1e-4 else "gap-wider-than-1e-4"
+            out.append((f"C13:refine:probability:new-state-is-not-the-equal-probability-point-of-the-gap:{at}:{ctx.dcls}"
+                        f"{ctx.model_cls}",
+                        f"refinement {nrefine}: inserted {ins!r} into ({a!r}, {b!r}); the point with equal jump probability on "
+                        f"both sides (quadrature of the density) is {ref!r}: off by {abs(ins - ref):.3g} = "
+                        f"{abs(ins - ref) / (b - a):.3g} of the gap (allowed {tol:.3g})",
+                        {"gap": [a, b], "inserted": ins, "equal_probability_point": ref,
+                         "mass_left_minus_right_at_inserted_minus_tol": g_lo, "at_inserted_plus_tol": g_hi,
+                         "gap_mass": whole, "total_mass": total}))
+            break
+        sh.count("probability_middle_confirmed_as_equal_probability_point")
+    return out
+
+
 def _observe_equal_mass_split(sh, ctx, old, new):
     """Observation only: the probability grid's middle is documented to split the gap's mass equally."""
     nu = ctx.nus[0]
@@ -1347,6 +1757,25 @@ def _sub_time(sh, case):
                      f"reports ({tg.start!r}, {tg.end!r}), axis ({ax[0]!r}, {ax[-1]!r})", None)
     if getattr(tg, "num", num) != num:
         sh.violation(f"C13:time:{name}:reported-num-differs", f"{name}({start},{end},{num}).num = {tg.num!r}", None)
+    # argument forms: numpy scalars, keywords, Python ints where the value is integral: the same axis, exactly
+    forms = [("numpy-scalars", lambda: cls(np.float64(start), np.float64(end), np.int64(num))),
+             ("keywords", lambda: cls(num=num, end=end, start=start))]
+    if float(start).is_integer() and float(end).is_integer():
+        forms.append(("python-ints", lambda: cls(int(start), int(end), num)))
+    for form, f in forms:
+        sh.count("evaluations")
+        sh.cls(f"argument-form:{form}")
+        try:
+            t2 = f()
+            ax2 = np.array([t2[i] for i in range(len(t2))], dtype=float)
+            same = ax2.shape == ax.shape and np.array_equal(ax2, ax) and float(t2.start) == float(tg.start) \
+                and float(t2.end) == float(tg.end) and int(t2.num) == int(tg.num) and float(t2.step) == float(tg.step)
+        except Exception as e:
+            sh.violation(f"C13:time:{name}:raises-for-argument-form:{form}:{type(e).__name__}", f"{type(e).__name__}: {e}", None)
+            continue
+        if not same:
+            sh.violation(f"C13:time:{name}:axis-differs-from-that-of-the-usual-argument-form:{form}",
+                         f"{name}({start},{end},{num}) as {form}: {ax2.tolist()[:6]} vs {ax.tolist()[:6]}", None)
     step = getattr(tg, "step", None)
     if step is not None and np.all(np.isfinite(ax)) and ax.size == num \
             and not np.allclose(np.diff(ax), step, rtol=1e-9, atol=1e-15):
